@@ -92,6 +92,19 @@ type World struct {
 	valSet      *tmtypes.ValidatorSet
 	storeKeys   map[string]storetypes.StoreKey
 	GenesisJSON []byte
+	db          dbm.DB
+}
+
+// Restart models a restart of the node's process at a block boundary: a new application object (new keepers, empty
+// process memory) is built over the same database and loads the last committed version.
+func (w *World) Restart() {
+	a := app.NewJackalApp(log.NewNopLogger(), w.db, nil, true, map[int64]bool{}, "/nonexistent-verif-home", 0,
+		app.MakeEncodingConfig(), wasm.EnableAllProposals, app.EmptyBaseAppOptions{}, nil)
+	w.App = a
+	w.storeKeys = map[string]storetypes.StoreKey{}
+	for k := range a.CommitMultiStore().(*rootmulti.Store).GetStores() {
+		w.storeKeys[k.Name()] = k
+	}
 }
 
 func DefaultBalance() sdk.Coins {
@@ -117,6 +130,7 @@ func New(cfg Config) *World {
 	SetPrefixes()
 	w := &World{Cfg: cfg, Accts: map[string]Acct{}}
 	db := dbm.NewMemDB()
+	w.db = db
 	a := app.NewJackalApp(log.NewNopLogger(), db, nil, true, map[int64]bool{}, "/nonexistent-verif-home", 0,
 		app.MakeEncodingConfig(), wasm.EnableAllProposals, app.EmptyBaseAppOptions{}, nil)
 	w.App = a
